@@ -4,99 +4,10 @@
    (generic_form_roundtrip), and the owner special case that breaks the round
    trip (a first label starting with '$'). *)
 From Coq Require Import NArith ZArith List Bool Lia ZifyN ZifyBool ZifyNat.
-From DV Require Import Base.Outcome Base.Bytes C06.Gen C06.Model C06.Proofs C06.Proofs2.
+From DV Require Import Base.Outcome Base.Bytes C06.Gen C06.Model C06.Proofs C06.Proofs2 C06.Tables.
 Import ListNotations.
 Local Open Scope N_scope.
 Ltac Zify.zify_post_hook ::= Z.div_mod_to_equations.
-
-(* ------------------------------------------------------------------ checking a predicate for all u16 *)
-
-Definition iter_step (f : N -> bool) (s : N * bool) : N * bool :=
-  (N.succ (fst s), if f (fst s) then snd s else false).
-Definition all_below (f : N -> bool) (n : positive) : bool := snd (Pos.iter (iter_step f) (0, true) n).
-
-Lemma all_below_spec f n : all_below f n = true -> forall b, b < N.pos n -> f b = true.
-Proof.
-  unfold all_below.
-  assert (H : fst (Pos.iter (iter_step f) (0, true) n) = N.pos n /\
-              (snd (Pos.iter (iter_step f) (0, true) n) = true -> forall b, b < N.pos n -> f b = true)).
-  { induction n as [|n IH] using Pos.peano_ind.
-    - cbn. split; [reflexivity|]. intros H b Hb. assert (b = 0) by lia. subst. destruct (f 0); [reflexivity|discriminate].
-    - rewrite Pos.iter_succ. destruct IH as [I1 I2].
-      destruct (Pos.iter (iter_step f) (0, true) n) as [i ok]. cbn [fst snd iter_step] in *. subst i.
-      split; [lia|]. intros H b Hb. destruct (f (N.pos n)) eqn:E; [|discriminate].
-      destruct (N.eq_dec b (N.pos n)) as [->|Ne]; [exact E|]. apply I2; [exact H | lia]. }
-  intros K. apply (proj2 H K).
-Qed.
-
-(* ------------------------------------------------------------------ plain words *)
-
-Definition plain_char (c : N) : bool := (33 <=? c) && (c <=? 126) && negb (mem c [34; 40; 41; 59; 92]).
-Definition plain_word (t : text) : bool :=
-  negb (match t with [] => true | _ => false end) && forallb plain_char t.
-
-Lemma plain_char_facts c : plain_char c = true ->
-  safe_sym false (SChar c) = true /\ into_ascii (SChar c) = Ok c /\ into_octet (SChar c) = Ok c.
-Proof.
-  unfold plain_char, mem. cbn [existsb]. intros H.
-  assert (R : 33 <= c <= 126 /\ c <> 34 /\ c <> 40 /\ c <> 41 /\ c <> 59 /\ c <> 92) by lia.
-  destruct R as (R1 & R2 & R3 & R4 & R5 & R6).
-  split; [|split].
-  - cbn [safe_sym]. unfold mem, word_excl, ascii_limit. cbn [existsb]. lia.
-  - cbn [into_ascii]. destruct ((32 <=? c) && (c <=? 126)) eqn:E; [reflexivity|lia].
-  - cbn [into_octet]. unfold octet_lo, octet_hi. destruct ((32 <=? c) && (c <=? 126)) eqn:E; [reflexivity|lia].
-Qed.
-
-Lemma plain_syms_text t : flat_map sym_text (map SChar t) = t.
-Proof. exact (digit_syms_text t). Qed.
-
-Lemma plain_word_good t : plain_word t = true -> good_shape (TWord (map SChar t)) = true.
-Proof.
-  unfold plain_word. intros H. apply andb_true_iff in H as [H1 H2]. cbn [good_shape].
-  apply andb_true_iff. split; [|destruct t; [discriminate|reflexivity]].
-  clear H1. induction t as [|c t IH]; [reflexivity|]. cbn [forallb map] in *. apply andb_true_iff in H2 as [H2 H3].
-  destruct (plain_char_facts c H2) as [S _]. rewrite S, IH by exact H3. reflexivity.
-Qed.
-
-Lemma plain_read_ascii sp t : forallb plain_char t = true -> read_ascii (shape_tok sp (TWord (map SChar t))) = Ok t.
-Proof.
-  unfold read_ascii. cbn [shape_tok t_syms]. induction t as [|c t IH]; intros H; [reflexivity|].
-  cbn [forallb map map_o] in *. apply andb_true_iff in H as [H1 H2].
-  destruct (plain_char_facts c H1) as (_ & A & _). rewrite A. cbn [bind]. rewrite IH by exact H2. reflexivity.
-Qed.
-
-Lemma plain_word_text t : word_text (map SChar t) = Ok t.
-Proof. induction t as [|c t IH]; [reflexivity|]. cbn [map word_text]. rewrite IH. reflexivity. Qed.
-
-Lemma digits_plain t : all_digits t = true -> forallb plain_char t = true.
-Proof.
-  induction t as [|c t IH]; intros H; [reflexivity|]. cbn [all_digits forallb] in *.
-  apply andb_true_iff in H as [H1 H2]. rewrite IH by exact H2. rewrite andb_true_r.
-  unfold is_digit in H1. unfold plain_char, mem. cbn [existsb]. lia.
-Qed.
-
-Lemma show_dec_plain n : plain_word (show_dec n) = true.
-Proof.
-  unfold plain_word. rewrite digits_plain by apply show_dec_digits.
-  pose proof (show_dec_nonempty n). destruct (show_dec n); [congruence|reflexivity].
-Qed.
-
-(* ------------------------------------------------------------------ TTL, class and type tokens *)
-
-Definition opt_is (a : option N) (v : N) : bool := match a with Some x => x =? v | None => false end.
-Definition opt_none (a : option N) : bool := match a with None => true | Some _ => false end.
-
-(* class tokens are never taken for a type; class and type mnemonics / CLASSn / TYPEn read back *)
-Definition class_ok (c : N) : bool :=
-  let s := show_class c in plain_word s && opt_none (parse_rtype s) && opt_is (parse_class s) c.
-Definition rtype_ok (t : N) : bool :=
-  let s := show_rtype t in plain_word s && opt_is (parse_rtype s) t.
-
-Lemma class_table : forall c, c < 65536 -> class_ok c = true.
-Proof. apply all_below_spec. vm_compute. reflexivity. Qed.
-
-Lemma rtype_table : forall t, t < 65536 -> rtype_ok t = true.
-Proof. apply all_below_spec. vm_compute. reflexivity. Qed.
 
 Lemma parse_show_dec max n : n <= max -> parse_uint_str max (show_dec n) = Some n.
 Proof.
@@ -227,8 +138,8 @@ Proof. induction fs as [|f fs IH]; [reflexivity|]. cbn [flat_map]. rewrite map_a
 
 Lemma erase_record r : map erase (record_sops r) = record_ops r.
 Proof.
-  unfold record_sops, record_ops. cbn [map erase join shape_text].
-  rewrite <- show_name_shape, !plain_syms_text. do 4 f_equal.
+  unfold record_sops, record_ops. cbn [map erase join].
+  rewrite <- show_name_shape. cbn [shape_text]. rewrite !plain_syms_text. do 4 f_equal.
   unfold data_sops, Model.data_ops. destruct (r_block r).
   - cbn [map erase]. rewrite map_app, erase_flat. reflexivity.
   - apply erase_flat.
@@ -250,13 +161,13 @@ Qed.
 Lemma good_flat fs : Forall (fun v => exists k, wf_field k v) (map fst fs) -> comments_ok fs ->
   Forall good_sop (flat_map field_sops fs).
 Proof.
-  induction fs as [|f fs IH]; intros W C; [constructor|].
-  cbn [map] in W. inversion W as [|? ? [k Wk] Wr]; subst. inversion C as [|? ? C1 C2]; subst.
-  cbn [flat_map]. apply Forall_app. split; [|apply IH; assumption].
-  unfold field_sops. apply Forall_app. split.
+  induction fs as [|f fs IH]; intros W C; [constructor|]. destruct f as [v oc].
+  cbn [map fst] in W. inversion W as [|? ? [k Wk] Wr]; subst. inversion C as [|? ? C1 C2]; subst.
+  cbn [flat_map]. cbn [snd] in C1. apply Forall_app. split; [|apply IH; assumption].
+  unfold field_sops. cbn [fst snd]. apply Forall_app. split.
   - rewrite Forall_map. eapply Forall_impl; [|exact (field_shapes_good k _ Wk)].
     intros sh G. split; [exact G | constructor].
-  - destruct (snd f); constructor; [exact C1 | constructor].
+  - destruct oc; [constructor; [exact C1 | constructor] | constructor].
 Qed.
 
 Lemma balanced_flat fs d rest : balanced d (flat_map field_sops fs ++ rest) = balanced d rest.
@@ -325,9 +236,9 @@ Proof.
     apply andb_true_iff in T as [T _]. apply andb_true_iff in T as [T _]. apply N.eqb_eq in T. subst c.
     destruct (b =? ch_dollar) eqn:E1.
     + exfalso. apply ND. apply N.eqb_eq in E1. subst b. exists l, r. reflexivity.
-    + assert (X : match map label_sym l ++ flat_map (fun x => SChar ch_dot :: map label_sym x) r ++ [SChar ch_dot]
-                  with [] => true | _ :: _ => false end = false).
-      { destruct (map label_sym l); [|reflexivity]. cbn [app]. destruct (flat_map _ r); reflexivity. }
+    + assert (X : forall (A : Type) (u v : list A) (w : A),
+                match u ++ v ++ [w] with [] => true | _ :: _ => false end = false).
+      { intros A u v w. destruct u; [|reflexivity]. destruct v; reflexivity. }
       rewrite X, andb_false_r. exact RN.
 Qed.
 
@@ -353,7 +264,14 @@ Theorem scan_show_record_refuted : exists k schema r, wf_record schema r /\
 Proof.
   exists KSimple, [FUint 65535; FName], (mk_record [[36]] 3600 1 15 true [(VUint 10, Some [112]); (VName [[97]], None)]).
   split.
-  - repeat split; try (cbn; lia); try (repeat constructor; cbn; try lia; intros [K|[]]; discriminate).
+  - assert (L : forall c, c < 256 -> wf_label [c]).
+    { intros c Hc. split; [repeat constructor; exact Hc | cbn; lia]. }
+    unfold wf_record. cbn [r_owner r_ttl r_class r_type r_fields map fst].
+    split; [split; [repeat constructor; apply L; lia | cbn; lia]|].
+    split; [lia|]. split; [lia|]. split; [lia|]. split.
+    + cbn [wf_fields wf_field]. split; [lia|]. split; [discriminate|]. split; [|split; [discriminate | exact I]].
+      split; [repeat constructor; apply L; lia | cbn; lia].
+    + repeat constructor. cbn [snd]. intros [K|[]]. discriminate.
   - eexists. split; vm_compute; reflexivity.
 Qed.
 
@@ -374,8 +292,8 @@ Qed.
 Lemma erase_generic owner ttl cl rt data :
   map erase (generic_sops owner ttl cl rt data) = generic_ops owner ttl cl rt data.
 Proof.
-  unfold generic_sops, generic_ops. cbn [map erase]. cbn [join shape_text].
-  rewrite <- show_name_shape, !plain_syms_text. do 4 f_equal. f_equal.
+  unfold generic_sops, generic_ops. cbn [map erase]. cbn [join].
+  rewrite <- show_name_shape. cbn [shape_text]. rewrite !plain_syms_text. do 4 f_equal. f_equal.
   unfold generic_text. rewrite join_flat. cbn [map flat_map shape_text sym_text app].
   rewrite plain_syms_text. unfold ch_hash. cbn [app]. do 3 f_equal. rewrite <- app_assoc. f_equal.
   induction data as [|b d IH]; [reflexivity|]. cbn [map flat_map]. rewrite IH. unfold hex_shape. cbn [shape_text].
